@@ -88,6 +88,8 @@ pub struct Obj {
     /// the harness has decided that this object may legitimately never be
     /// dropped (forgotten iterator, unwinding callback)
     pub leak_ok: bool,
+    /// position in the sequence of all drops of this case (0 = not dropped)
+    pub drop_seq: u64,
 }
 
 #[derive(Clone, Debug, PartialEq, Eq)]
@@ -159,7 +161,7 @@ fn register(is_key: bool, origin: u64, owner: Owner) -> u64 {
             r.objs.push(None);
         }
         let id = r.objs.len() as u64;
-        r.objs.push(Some(Obj { st: St::Live, owner, origin, is_key, leak_ok: false }));
+        r.objs.push(Some(Obj { st: St::Live, owner, origin, is_key, leak_ok: false, drop_seq: 0 }));
         r.created += 1;
         id
     }).unwrap_or(0)
@@ -244,8 +246,12 @@ fn on_drop(id: u64) {
                 if o.st == St::Dropped {
                     r.vios.push(Vio { kind: VioKind::DoubleDrop, id, what: "drop" });
                 }
-                else if let Some(Some(o)) = r.objs.get_mut(id as usize) {
-                    o.st = St::Dropped;
+                else {
+                    let seq = r.drops;
+                    if let Some(Some(o)) = r.objs.get_mut(id as usize) {
+                        o.st = St::Dropped;
+                        o.drop_seq = seq;
+                    }
                 }
             }
         }
@@ -330,6 +336,9 @@ pub struct TVal {
     pub id: u64,
     pub tag: u32,
     pub heap: usize,
+    /// reserved-but-unused memory (counted by heap_size like a String's spare
+    /// capacity); a clone does not carry it over
+    pub spare: usize,
     #[cfg(feature = "asanbox")]
     _b: Box<u8>,
 }
@@ -347,11 +356,17 @@ impl TKey {
 }
 
 impl TVal {
+    /// measured heap size: payload plus spare
+    pub fn measured(&self) -> usize {
+        self.heap + self.spare
+    }
+
     pub fn new(tag: u32, heap: usize) -> TVal {
         TVal {
             id: register(false, 0, Owner::Harness),
             tag,
             heap,
+            spare: 0,
             #[cfg(feature = "asanbox")]
             _b: Box::new(0),
         }
@@ -397,6 +412,7 @@ impl Clone for TVal {
             id: register(false, self.id, owner),
             tag: self.tag,
             heap: self.heap,
+            spare: 0,
             #[cfg(feature = "asanbox")]
             _b: Box::new(0),
         }
@@ -445,7 +461,7 @@ impl HeapSize for TVal {
         if callback(self.id, Cb::SizeV) {
             panic!("{}", INJECTED);
         }
-        self.heap
+        self.heap + self.spare
     }
 }
 
